@@ -27,6 +27,7 @@ sub!(codec, "codec.rs");
 sub!(c11, "c11.rs");
 sub!(c12, "c12.rs");
 sub!(c05, "c05.rs");
+sub!(c03, "c03.rs");
 
 pub async fn main() -> Result<(), easy_error::Terminator> {
     let args: Vec<String> = std::env::args().collect();
@@ -42,6 +43,7 @@ pub async fn main() -> Result<(), easy_error::Terminator> {
         "c11" => c11::run(&mut out).await,
         "c12" => c12::run(&mut out).await,
         "c05" => c05::run(&mut out).await,
+        "c03" => c03::run(&mut out).await,
         _ => {
             eprintln!("unknown mode {}", mode);
             std::process::exit(2);
